@@ -31,9 +31,15 @@ rm -rf "$WT/demo"; git -C "$WT" checkout -- . && git -C "$WT" clean -fdq
 if [ -n "$DEMO" ]; then DWO=$(run_demo without); rm -rf "$WT/demo"; fi
 echo "SEED $DIR: build=$B suite=$S demo_with_change=$DW demo_without_change=$DWO"
 if [ "$B" != 0 ] || [ "$S" != 0 ]; then echo "SEED $DIR: rejected (does not build or fails the existing suite)"; exit 0; fi
-# 2. against /repo
+# 2. run the checks: against /repo (the prescribed way), or — SEED_ISOLATED=1, for regression
+# sweeps that must not disturb /repo — against the scratch worktree with the change applied
+if [ -n "${SEED_ISOLATED:-}" ]; then
+  git -C "$WT" apply "$PATCH" || { echo "SEED: cannot apply to $WT"; exit 0; }
+  export VERIF_REPO="$WT" VERIF_BIN="${SEED_BIN:-/tmp/seedbin}"
+else
 if [ -n "$(git -C /repo status --porcelain)" ]; then echo "SEED: /repo is not clean, refusing"; exit 0; fi
 git -C /repo apply "$PATCH" || { echo "SEED: cannot apply to /repo"; exit 0; }
+fi
 for ID in "$@"; do
   s=$(date +%s)
   OUT="$(cd "$HERE" && VERIF_OUT=/tmp/seed-evidence ./check "$ID" "$TIER" 2>&1)"; RC=$?
@@ -43,5 +49,9 @@ for ID in "$@"; do
   echo "SEED $DIR: check=$ID tier=$TIER rc=$RC violations=$NV $((e-s))s  $KIND"
   echo "$OUT" | grep -v '^VIOLATION' | tail -15 > "$DIR/check_$ID.log"
 done
+if [ -n "${SEED_ISOLATED:-}" ]; then
+  git -C "$WT" checkout -- . && git -C "$WT" clean -fdq
+else
 git -C /repo checkout -- . && git -C /repo clean -fdq
 [ -z "$(git -C /repo status --porcelain)" ] || echo "SEED: WARNING /repo not clean after revert"
+fi
